@@ -40,6 +40,7 @@ for d in sorted(os.listdir(os.path.join(ROOT, "seeded"))):
         subprocess.run(["git", "-C", REPO, "checkout", "--", "."])
     caught = any(rc == 1 and v for _, rc, v in res)
     rows.append((d, prop, "CAUGHT" if caught else "MISSED", "; ".join(f"{pr}: rc={rc} {' | '.join(x[:260] for x in v)}" for pr, rc, v in res)))
+    print("row: " + " | ".join(rows[-1]), flush=True)
     subprocess.run(["rm", "-rf", os.path.join(ROOT, "replays")])
 for r in rows:
     print(" | ".join(r))
